@@ -714,3 +714,139 @@ class SignEval:
         if isinstance(op, ast.Div):
             raise InexactDivision(f"`{text}` is float true division: the quotient is rounded to 53 bits")
         raise SignTop(f"operator {type(op).__name__}")
+
+
+# ---------------------------------------------------------------------------
+# IEEE-754 class/sign evaluation (C01.M7): division by a zero divisor
+# ---------------------------------------------------------------------------
+class IeeeTop(Exception):
+    pass
+
+
+class FV:
+    """A binary64 value up to its class and sign: cls in zero|fin|inf|nan, sign +1/-1/None (unknown or unspecified)."""
+
+    def __init__(self, cls: str, sign: Optional[int]):
+        self.cls, self.sign = cls, sign
+
+    def __repr__(self) -> str:
+        sg = {1: "+", -1: "-", None: "?"}[self.sign]
+        return "nan" if self.cls == "nan" else f"{sg}{self.cls}"
+
+
+class IeeeEval:
+    """Evaluates the returns of a small float function over value classes.  Handles constants, float()/cast/the class
+    constructor, copysign, * and unary -, comparisons with 0.0 and the `x != x` NaN test, if/else and conditional
+    expressions.  The sign of a NaN is *unspecified*: copysign(x, nan) has an unknown sign."""
+
+    def __init__(self, fn: ast.FunctionDef, env: Dict[str, FV], ctor_names: Sequence[str] = ("DoubleType", "float")):
+        self.fn, self.env, self.ctors = fn, dict(env), set(ctor_names)
+
+    def run(self) -> FV:
+        r = self.block(self.fn.body)
+        if r is None:
+            raise IeeeTop("falls off the end")
+        return r
+
+    def block(self, stmts: Sequence[ast.stmt]) -> Optional[FV]:
+        for st in stmts:
+            if isinstance(st, ast.Expr) and isinstance(st.value, ast.Constant):
+                continue
+            if isinstance(st, ast.Return):
+                return self.ev(st.value)
+            if isinstance(st, ast.If):
+                r = self.block(st.body if self.truth(st.test) else st.orelse)
+                if r is not None:
+                    return r
+                continue
+            if isinstance(st, (ast.Assign, ast.AnnAssign)) and st.value is not None:
+                tgt = st.targets[0] if isinstance(st, ast.Assign) else st.target
+                if isinstance(tgt, ast.Name):
+                    self.env[tgt.id] = self.ev(st.value)
+                    continue
+            raise IeeeTop(f"statement {type(st).__name__}")
+        return None
+
+    def truth(self, t: ast.expr) -> bool:
+        t = strip_cast(t)
+        if isinstance(t, ast.UnaryOp) and isinstance(t.op, ast.Not):
+            return not self.truth(t.operand)
+        if isinstance(t, ast.BoolOp):
+            vals = [self.truth(v) for v in t.values]
+            return all(vals) if isinstance(t.op, ast.And) else any(vals)
+        if isinstance(t, ast.Compare) and len(t.ops) == 1:
+            a, b = self.ev(t.left), self.ev(t.comparators[0])
+            op = t.ops[0]
+            if isinstance(op, (ast.Eq, ast.NotEq)):
+                if a.cls == "nan" or b.cls == "nan":
+                    eq = False
+                elif a.cls == "zero" or b.cls == "zero":
+                    eq = a.cls == b.cls == "zero"
+                elif ast.unparse(strip_cast(t.left)) == ast.unparse(strip_cast(t.comparators[0])):
+                    eq = True
+                else:
+                    raise IeeeTop(f"comparison {ast.unparse(t)[:40]}")
+                return eq if isinstance(op, ast.Eq) else not eq
+            if isinstance(op, (ast.Lt, ast.Gt, ast.LtE, ast.GtE)) and b.cls == "zero" and a.cls in ("fin", "inf") and a.sign is not None:
+                return {ast.Lt: a.sign < 0, ast.LtE: a.sign < 0, ast.Gt: a.sign > 0, ast.GtE: a.sign > 0}[type(op)]
+        if isinstance(t, ast.Call) and dotted(t.func) in ("isnan", "math.isnan") and len(t.args) == 1:
+            return self.ev(t.args[0]).cls == "nan"
+        if isinstance(t, ast.Call) and dotted(t.func) in ("isinf", "math.isinf") and len(t.args) == 1:
+            return self.ev(t.args[0]).cls == "inf"
+        raise IeeeTop(f"test {ast.unparse(t)[:40]}")
+
+    def ev(self, e: Optional[ast.expr]) -> FV:
+        if e is None:
+            raise IeeeTop("no value")
+        e = strip_cast(e)
+        if isinstance(e, ast.Constant):
+            v = e.value
+            if isinstance(v, (int, float)) and not isinstance(v, bool):
+                if v != v:
+                    return FV("nan", None)
+                if v == 0:
+                    return FV("zero", -1 if str(v).startswith("-") else 1)
+                if v in (float("inf"), float("-inf")):
+                    return FV("inf", 1 if v > 0 else -1)
+                return FV("fin", 1 if v > 0 else -1)
+            if isinstance(v, str) and v.strip().lower().lstrip("+-") in ("inf", "infinity", "nan"):
+                low = v.strip().lower()
+                if "nan" in low:
+                    return FV("nan", None)
+                return FV("inf", -1 if low.startswith("-") else 1)
+            raise IeeeTop(f"constant {v!r}")
+        if isinstance(e, ast.Name):
+            if e.id in self.env:
+                return self.env[e.id]
+            if e.id in ("inf", "INF"):
+                return FV("inf", 1)
+            if e.id in ("nan", "NAN"):
+                return FV("nan", None)
+            raise IeeeTop(f"name {e.id}")
+        if isinstance(e, ast.Attribute) and dotted(e) in ("math.inf",):
+            return FV("inf", 1)
+        if isinstance(e, ast.Attribute) and dotted(e) in ("math.nan",):
+            return FV("nan", None)
+        if isinstance(e, ast.UnaryOp) and isinstance(e.op, (ast.USub, ast.UAdd)):
+            v = self.ev(e.operand)
+            return FV(v.cls, (None if v.sign is None else -v.sign) if isinstance(e.op, ast.USub) else v.sign)
+        if isinstance(e, ast.IfExp):
+            return self.ev(e.body) if self.truth(e.test) else self.ev(e.orelse)
+        if isinstance(e, ast.BinOp) and isinstance(e.op, ast.Mult):
+            a, b = self.ev(e.left), self.ev(e.right)
+            if a.cls == "nan" or b.cls == "nan" or {a.cls, b.cls} == {"inf", "zero"}:
+                return FV("nan", None)  # inf * 0 is NaN, and the sign bit of a NaN is unspecified
+            sign = None if a.sign is None or b.sign is None else a.sign * b.sign
+            cls = "inf" if "inf" in (a.cls, b.cls) else "zero" if "zero" in (a.cls, b.cls) else "fin"
+            return FV(cls, sign)
+        if isinstance(e, ast.Call):
+            d = (dotted(e.func) or "").split(".")[-1]
+            if d == "copysign" and len(e.args) == 2:
+                a, b = self.ev(e.args[0]), self.ev(e.args[1])
+                return FV(a.cls, None if b.cls == "nan" else b.sign)
+            if d in self.ctors and len(e.args) == 1:
+                return self.ev(e.args[0])
+            if d in ("abs", "fabs") and len(e.args) == 1:
+                a = self.ev(e.args[0])
+                return FV(a.cls, 1)
+        raise IeeeTop(f"expression {ast.unparse(e)[:50]}")
